@@ -46,58 +46,56 @@ Proof.
   intros H H'. unfold idlist. rewrite (port_of_with_port d s p s' H H'). destruct (s =? s'); reflexivity.
 Qed.
 
+(** taking the head of an incoming buffer keeps everything *)
+Lemma cinv_popped d mi mo pi po s0 x rest : s0 <= 1 -> p_in (port_of d s0) = x :: rest ->
+  cinv d mi mo pi po -> UB d pi po -> cinv (popped d s0 rest) mi mo pi po /\ UB (popped d s0 rest) pi po.
+Proof.
+  intros H0 Hin [Hss Hds Sep Nw Fs Fd R B W] U. split.
+  - constructor; try assumption.
+    + intros s Hs id a y Hy. destruct (popped_ports d s0 x rest s H0 Hs Hin) as [Po _]. rewrite Po in Hy. apply (Nw s Hs id a y Hy).
+    + destruct (popped_ports d s0 x rest _ H0 Hss Hin) as [Po Pi]. change (d_sside (popped d s0 rest)) with (d_sside d).
+      apply (RB_mono (port_of d (d_sside d)) (pick (d_sside d) pi po) _ _ (d_pread d) _ _ _); [| | |exact R].
+      * intros id a n Hy. rewrite Po in Hy. exact Hy.
+      * intros id y Hy. apply Pi. exact Hy.
+      * auto.
+    + destruct (popped_ports d s0 x rest _ H0 Hds Hin) as [Po _]. change (d_dside (popped d s0 rest)) with (d_dside d).
+      apply (WB_eqw (port_of d (d_dside d)) (pick (d_dside d) pi po)); [|exact W].
+      intros id a y. rewrite Po. tauto.
+  - apply (UB_shrink d (popped d s0 rest) pi po pi po); [apply N.le_refl| |exact U].
+    intros s Hs. unfold popped. rewrite idlist_with_port by assumption. destruct (s0 =? s) eqn:E.
+    + assert (s = s0) by lia. subst s. exists [rid x]. unfold idlist. rewrite Hin. cbn [p_out p_in map].
+      apply Permutation_sym. cbn [app]. apply Permutation_middle.
+    + exists []. apply Permutation_refl.
+Qed.
+
 (** ---- processWriteDoneFromDst *)
 Lemma proc_write_done_cinv d mi mo pi po : d_active d = true -> cinv d mi mo pi po -> UB d pi po ->
   cinv (snd (proc_write_done d)) mi mo pi po /\ UB (snd (proc_write_done d)) pi po.
 Proof.
-  intros Act C U. pose proof C as [Hss Hds Hne Fs Fd R B W].
+  intros Act C U. pose proof C as [Hss Hds Sep Nw Fs Fd R B W].
   unfold proc_write_done. rewrite Act. cbn [negb]. rewrite (side_port_of d _ Hds).
   set (p := port_of d (d_dside d)) in *.
   destruct (p_in p) as [|[r x|r] rest] eqn:Pin; cbn [snd]; [split; assumption| |].
-  - (* orphan data-ready on the destination port *)
-    assert (negb (d_sside d =? d_dside d) = true) as -> by (apply negb_true_iff, N.eqb_neq; exact Hne). cbn [snd].
-    set (d' := with_port d (d_dside d) (mk_port rest (p_out p) (p_cap p))).
-    assert (Pss : port_of d' (d_sside d) = port_of d (d_sside d)).
-    { unfold d'. rewrite port_of_with_port by assumption. destruct (d_dside d =? d_sside d) eqn:E; [lia|reflexivity]. }
-    assert (Pds : port_of d' (d_dside d) = mk_port rest (p_out p) (p_cap p)).
-    { unfold d'. rewrite port_of_with_port by assumption. rewrite N.eqb_refl. reflexivity. }
-    split.
-    + constructor; cbn [d' with_port d_sside d_dside d_req d_pread d_buf d_pwrite d_next_write d_sg d_dg]; try assumption.
-      * fold d'. rewrite Pss. exact R.
-      * fold d'. rewrite Pds. cbn [p_out]. exact W.
-    + apply (UB_shrink d d' pi po pi po); [apply N.le_refl| |exact U].
-      intros s Hs. unfold d'. rewrite idlist_with_port by assumption. destruct (d_dside d =? s) eqn:E.
-      * assert (s = d_dside d) by lia. subst s. exists [r]. unfold idlist. fold p. rewrite Pin. cbn [p_out p_in map rid].
-        apply Permutation_sym. cbn [app]. apply Permutation_middle.
-      * exists []. apply Permutation_refl.
+  - (* a data-ready on the destination port: an orphan unless both sides share the port *)
+    destruct (negb (d_sside d =? d_dside d)); cbn [snd]; [|split; assumption].
+    apply (cinv_popped d mi mo pi po (d_dside d) _ rest Hds Pin C U).
   - (* write-done *)
-    set (d' := with_port d (d_dside d) (mk_port rest (p_out p) (p_cap p))).
-    assert (Pss : port_of d' (d_sside d) = port_of d (d_sside d)).
-    { unfold d'. rewrite port_of_with_port by assumption. destruct (d_dside d =? d_sside d) eqn:E; [lia|reflexivity]. }
-    assert (Pds : port_of d' (d_dside d) = mk_port rest (p_out p) (p_cap p)).
-    { unfold d'. rewrite port_of_with_port by assumption. rewrite N.eqb_refl. reflexivity. }
-    assert (U' : UB d' pi po).
-    { apply (UB_shrink d d' pi po pi po); [apply N.le_refl| |exact U].
-      intros s Hs. unfold d'. rewrite idlist_with_port by assumption. destruct (d_dside d =? s) eqn:E.
-      - assert (s = d_dside d) by lia. subst s. exists [r]. unfold idlist. fold p. rewrite Pin. cbn [p_out p_in map rid].
-        apply Permutation_sym. cbn [app]. apply Permutation_middle.
-      - exists []. apply Permutation_refl. }
-    assert (C' : cinv d' mi mo pi po).
-    { constructor; cbn [d' with_port d_sside d_dside d_req d_pread d_buf d_pwrite d_next_write d_sg d_dg]; try assumption.
-      - fold d'. rewrite Pss. exact R.
-      - fold d'. rewrite Pds. cbn [p_out]. exact W. }
+    destruct (cinv_popped d mi mo pi po (d_dside d) _ rest Hds Pin C U) as [C1 U1].
+    fold p in C1, U1. change (with_port d (d_dside d) (mk_port rest (p_out p) (p_cap p))) with (popped d (d_dside d) rest).
+    set (d1 := popped d (d_dside d) rest) in *.
     destruct (aget r (d_pwrite d)) as [a0|] eqn:AG; cbn [snd]; [|split; assumption].
-    destruct C' as [Hss' Hds' Hne' Fs' Fd' R' B' W'].
+    destruct C1 as [Hss1 Hds1 Sep1 Nw1 Fs1 Fd1 R1 B1 [W1 W2]].
     match goal with |- cinv ?D _ _ _ _ /\ _ => set (du := D) end.
-    split; [|intros s Hs; exact (U' s Hs)].
-    constructor; [exact Hss'|exact Hds'|exact Hne'|exact Fs'|exact Fd'|exact R'|exact B'|].
-    destruct W' as [W1 W2]. split; [|exact W2].
-    intros id a x Hin. change (port_of du (d_dside du)) with (port_of d' (d_dside d)) in Hin.
+    split; [|intros s Hs; exact (U1 s Hs)].
+    constructor; [exact Hss1|exact Hds1|exact Sep1|exact Nw1|exact Fs1|exact Fd1|exact R1|exact B1|].
+    split; [|exact W2].
+    intros id a x Hin. change (port_of du (d_dside du)) with (port_of d1 (d_dside d)) in Hin.
     destruct (W1 id a x Hin) as [[a' Ha'] Ho]. split; [|exact Ho].
-    exists a'. change (d_pwrite du) with (adel r (d_pwrite d)). change (d_pwrite d') with (d_pwrite d) in Ha'.
+    exists a'. change (d_pwrite du) with (adel r (d_pwrite d)). change (d_pwrite d1) with (d_pwrite d) in Ha'.
     rewrite aget_adel_other; [exact Ha'|].
     (* the write still in flight has another id than the acknowledged one *)
     intro Heq. subst id. destruct (U (d_dside d) Hds) as [Nd _]. unfold idlist in Nd. fold p in Nd. rewrite Pin in Nd.
     cbn [map rid] in Nd. apply NoDup_remove_2 in Nd. apply Nd. apply in_or_app. left.
-    rewrite Pds in Hin. cbn [p_out] in Hin. apply (in_map mid) in Hin. exact Hin.
+    destruct (popped_ports d (d_dside d) (MDone r) rest _ Hds Hds Pin) as [Po _]. fold d1 in Po. rewrite Po in Hin.
+    apply (in_map mid) in Hin. exact Hin.
 Qed.
